@@ -154,6 +154,35 @@ def flipLoop (s : St) : List Nat → R St
     let p ← getPt s.glyph i
     flipLoop { s with glyph := s.glyph.set i { p with on := ¬ p.on } } rest
 
+/-- `op_instctrl` (`target.preserve_linear_metrics()` is false for every target the comparison tool
+uses): `selector = pop() as u32; value = pop() as u32`. -/
+def instctrl (s : St) (sel v : Int) : St :=
+  let sel := wrapU32 sel
+  let v := wrapU32 v
+  if ¬ (1 ≤ sel ∧ sel ≤ 3) then s
+  else
+    let flag := (2 : Int) ^ (sel - 1).toNat
+    if v ≠ 0 ∧ v ≠ flag then s
+    else if s.inPrep then
+      -- instruct_control &= !(selector_flag as u8); instruct_control |= value as u8
+      { s with instructControl := (s.instructControl - (if s.instructControl / flag % 2 = 1 then flag else 0)) + v % 256 }
+    else if sel = 3 then { s with bc := v ≠ 4 }
+    else s
+
+/-- `Engine::reset(Program::Glyph)` after the prep: the retained graphics state, cvt, storage and twilight
+zone are kept; everything else is `GraphicsState::default()`; instruct control bit 1 resets the
+retained state (`reset_retained`); backward compatibility from the target (`smooth`) and bit 2. -/
+def startGlyph (p : St) (smooth : Bool) (glyph : List ZPt) (ends : List Nat) : St :=
+  let p := if p.instructControl / 2 % 2 = 1 then
+      { p with autoFlip := true, cutin := 68, deltaBase := 9, deltaShift := 3, instructControl := 0, md := 64,
+               scanControl := false, swci := 0, sw := 0 }
+    else p
+  { p with glyph := glyph, ends := ends, stack := [],
+           pv := ⟨16384, 0⟩, dv := ⟨16384, 0⟩, fv := ⟨16384, 0⟩,
+           rp0 := 0, rp1 := 0, rp2 := 0, zp0 := 1, zp1 := 1, zp2 := 1, loop := 1,
+           rmode := 0, rthr := 0, rph := 0, rper := 64,
+           bc := smooth ∧ p.instructControl / 4 % 2 = 0, iupx := false, iupy := false, inPrep := false }
+
 /-- one instruction. -/
 def step (op imm : Int) (s : St) : R St := do
   if op = 256 then pure (push s (wrapI32 imm))
@@ -468,18 +497,11 @@ def step (op imm : Int) (s : St) : R St := do
     let (sel, s) ← s.pop
     let t := s.scanType
     pure (push s (getinfo sel (t ≠ 0) (t = 4) (t ≠ 0) (t = 1)))
-  -- INSTCTRL in a glyph program: only selector 3 has an effect
+  -- INSTCTRL: in the prep it edits `instruct_control`, in a glyph program only selector 3 has an effect
   else if op = 0x8E then do
     let (sel, s) ← s.pop
     let (v, s) ← s.pop
-    let sel := wrapU32 sel
-    let v := wrapU32 v
-    if ¬ (1 ≤ sel ∧ sel ≤ 3) then pure s
-    else
-      let flag := (2 : Int) ^ (sel - 1).toNat
-      if v ≠ 0 ∧ v ≠ flag then pure s
-      else if sel = 3 then pure { s with bc := v ≠ 4 }
-      else pure s
+    pure (instctrl s sel v)
   -- MDRP
   else if 0xC0 ≤ op ∧ op ≤ 0xDF then do
     let fl := op - 0xC0
